@@ -241,8 +241,9 @@ inline void gen_text(Rng& r, bool thorough) {
       stratum("parser-mutated"); std::string s = mutate_text(r, r.pick(p.seeds), p.alpha);
       // years beyond 214748 overflow `int` in Utility::day (open finding F15): that class is run isolated, below
       if (std::string(p.f).compare(0, 8, "Utility.") == 0 && (std::string(p.f) == "Utility.fractionalyear" || std::string(p.f) == "Utility.date")) {
-        size_t q = s.find_first_not_of("0123456789"); std::string yr = s.substr(0, q);
-        if (yr.size() > 6 || (yr.size() == 6 && yr >= "200000")) { stratum("parser-date-huge-year"); run_isolated("c13_parse", {p.f, hs(s)}); continue; }
+        // any numeric field of six or more digits (year, month or day) can overflow the int calendar arithmetic
+        int run = 0, longest = 0; for (char ch : s) { run = (ch >= '0' && ch <= '9') ? run + 1 : 0; longest = std::max(longest, run); }
+        if (longest >= 6) { stratum("parser-date-huge-field"); run_isolated("c13_parse", {p.f, hs(s)}); continue; }
       }
       Args a{p.f, hs(s)}; if (p.two) a.push_back(hs(mutate_text(r, r.pick(p.seeds), p.alpha)));
       runx("c13_parse", a);
